@@ -25,6 +25,8 @@ _srv = None
 WEB, NATIVE = "client_1", "native_app"
 DYN_URIS = ["https://dyn.example.com/cb?tenant=blue", "https://dyn.example.com/cb2"]
 DYN_PL = "https://dyn.example.com/logout_cb?tenant=blue"
+DYNN_URIS = ["http://localhost:8080/cb", "http://127.0.0.1:8080/cb", "com.example.dyn:/cb"]     # a NATIVE application registering itself
+DYNN = None
 DYN = None       # client_id of the dynamically registered client (set by server())
 REG = {
     WEB: [("https://rp.example.com/cb", None), ("https://rp.example.com/cb2", {"foo": ["bar"]}), ("https://rp.example.com:8443/deep/path;p=1", None)],
@@ -90,6 +92,10 @@ def server():
         DYN_SECRET = out["response_args"]["client_secret"]
         PLREGS["dyn"] = [(b, q or None) for b, q in [tuple(split_uri(DYN_PL))]]
         REG["dyn"] = [(b, q or None) for b, q in (tuple(split_uri(u)) for u in DYN_URIS)]
+        global DYNN
+        outn = reg.process_request(reg.parse_request({"redirect_uris": DYNN_URIS, "application_type": "native", "response_types": ["code"]}))
+        DYNN = outn["response_args"]["client_id"]
+        REG["dynn"] = [(u, None) for u in DYNN_URIS]      # what the client REGISTERED is what it sent
         rat = out["response_args"].get("registration_access_token")
         rd = _srv.get_endpoint("registration_read")
         if rd is not None and rat:
@@ -109,7 +115,7 @@ def base_uri(entry):
 
 MUTS = ["same", "scheme_case", "userinfo", "host_suffix", "host_prefix", "port_add", "port_change", "path_extra", "dotseg", "pct_slash", "pct_tab_path",
         "pct_tab_host", "lead_space", "trail_space", "raw_tab", "extra_q", "blank_q", "dup_q", "reorder_q", "fragment", "pct_fragment", "params",
-        "empty_q", "trailing_slash", "pct_letter", "upper_host", "no_scheme", "backslash", "at_trick", "pct_q", "crlf", "double_slash", "port_zero", "bad_port", "empty", "drop_q", "other_q"]
+        "empty_q", "trailing_slash", "pct_letter", "upper_host", "no_scheme", "backslash", "at_trick", "pct_q", "crlf", "double_slash", "port_zero", "bad_port", "empty", "drop_q", "other_q", "port_drop"]
 
 
 def mutate(rng, uri, kind):
@@ -130,6 +136,8 @@ def mutate(rng, uri, kind):
         return uri.replace(host, "evil." + host, 1) if host else "evil" + uri
     if kind == "port_add":
         return uri.replace(host, host + ":1234", 1) if host and ":" not in host.rsplit("]", 1)[-1] else uri
+    if kind == "port_drop":
+        return re.sub(r":\d+(/|$)", lambda m: m.group(1), uri, 1)
     if kind == "port_change":
         return re.sub(r":(\d+)(/|$)", lambda m: ":%d%s" % (int(m.group(1)) + 1, m.group(2)), uri, 1)
     if kind == "path_extra":
@@ -202,14 +210,14 @@ def cases(rng, tier):
     n = {"quick": 1, "thorough": 10, "search": 6}[tier]
     out = []
     server()
-    for cid in (WEB, NATIVE, "dyn"):
+    for cid in (WEB, NATIVE, "dyn", "dynn"):
         for entry in REG[cid]:
             for kind in MUTS:
                 for _ in range(n):
                     out.append({"t": "uri", "client": cid, "uri": mutate(rng, base_uri(entry), kind), "kind": kind})
     # combined mutations
     for _ in range(150 * n):
-        cid = rng.choice([WEB, NATIVE, "dyn"])
+        cid = rng.choice([WEB, NATIVE, "dyn", "dynn"])
         u = base_uri(rng.choice(REG[cid]))
         for k in rng.sample(MUTS, 2):
             u = mutate(rng, u, k)
@@ -292,7 +300,7 @@ def impl(c):
     if c["t"] == "logout":
         return _logout(c)
     if c["t"] == "uri":
-        req = AuthorizationRequest(client_id=DYN if c["client"] == "dyn" else c["client"], redirect_uri=c["uri"], scope=["openid"], state="st", response_type="code", nonce="n")
+        req = AuthorizationRequest(client_id={"dyn": DYN, "dynn": DYNN}.get(c["client"], c["client"]), redirect_uri=c["uri"], scope=["openid"], state="st", response_type="code", nonce="n")
         try:
             pr = ep.parse_request(req.to_dict())
         except Exception as e:
@@ -362,7 +370,7 @@ def model_lines(c, obs):
         v = _parsed_view(c["uri"])
         if v is None:
             return []
-        native = c["client"] == NATIVE
+        native = c["client"] in (NATIVE, "dynn")
         args = ["redir", "verify", "1" if native else "0", "1"] + list(_enc_parsed(v))
         for b, q in REG[c["client"]]:
             o = urlparse(b)._replace(query=None)
@@ -475,7 +483,7 @@ def oracle(c, obs):
             return v
         dec = unquote(c["uri"])
         got = rfc_parts(dec)
-        native = c["client"] == NATIVE
+        native = c["client"] in (NATIVE, "dynn")
         ok = False
         for b, q in REG[c["client"]]:
             r = rfc_parts(b)
